@@ -324,13 +324,29 @@ def cfg_tags(cfg):
     return tags
 
 
+class _Guard:
+    """a worker's alarm exception (a BaseException) must never escape into the pool machinery: that would kill the worker
+    process and hang the map"""
+
+    def __init__(self, fn):
+        self.fn = fn
+
+    def __call__(self, x):
+        try:
+            return self.fn(x)
+        except Exception:
+            raise
+        except BaseException as exc:  # noqa: BLE001
+            raise RuntimeError(f"worker interrupted outside its own handler: {type(exc).__name__}") from None
+
+
 def pool_map(fn, items, procs=None):
     procs = procs or min(16, os.cpu_count() or 4)
     if len(items) <= 2 or procs <= 1:
         return [fn(x) for x in items]
     ctx = mp.get_context("fork")
     with ctx.Pool(procs) as pool:
-        return pool.map(fn, items, chunksize=max(1, len(items) // (procs * 4)))
+        return pool.map(_Guard(fn), items, chunksize=max(1, len(items) // (procs * 4)))
 
 
 def exc_info(exc):
